@@ -30,6 +30,11 @@ BIGA = [(0, 0), (40009, 0), (40013, 30011), (3, 30029)]
 BIGB = [(10007, -5003), (50021, 10009), (20011, 45007)]
 
 
+# rational vertices whose denominators (~1e5, stored unchanged) are pairwise coprime: differences of coordinates have denominators ~1e10
+FRACA = [(F(1, 100003), F(0)), (F(2), F(0)), (F(1, 100019), F(1))]
+FRACB = [(F(-1), F(1, 3)), (F(1, 2), F(1, 2)), (F(-1), F(1))]
+
+
 class BigCross:
     """crossing parameters and result vertices for polygons with 5-digit coordinates in general position (the exact
     crossing parameters have denominators above 10^9): B translated by the symbolic t*(3, 1)"""
@@ -38,21 +43,25 @@ class BigCross:
     max_degree = 2
     replay_any_denominator = True
 
-    def __init__(self):
+    def __init__(self, which="int"):
+        self.which = which
         self.names = ["t"]
 
     def domain(self, xs):
-        return [xs[0] >= -100, xs[0] <= 100]
+        return [xs[0] >= -100, xs[0] <= 100] if self.which == "int" else [xs[0] >= F(-1, 10), xs[0] <= F(1, 10)]
 
     def extra_envs(self):
+        if self.which == "frac":
+            return [[F(0)], [F(1, 100)], [F(-1, 37)], [F(1, 100043)]]
         return [[F(1, 3)], [F(7, 11)], [F(-5, 13)], [F(10**6 + 3, 10**6)], [F(37, 10**4 + 7)]]
 
     def run(self, xs):
         from shapepy import JordanCurve
 
         t = xs[0]
-        ja = JordanCurve.from_vertices(BIGA)
-        jb = JordanCurve.from_vertices([(x + 3 * t, y + t) for x, y in BIGB])
+        A, B = (BIGA, BIGB) if self.which == "int" else (FRACA, FRACB)
+        ja = JordanCurve.from_vertices(A)
+        jb = JordanCurve.from_vertices([(x + 3 * t, y + t) for x, y in B])
         inter = [[a, b, u, v] for a, b, u, v in ja.intersection(jb) if u is not None]
         return {"crossings": inter}
 
@@ -218,6 +227,7 @@ def specs(tier):
             out.append(dict(module="checks.c13", scenario="ExactOps", params=dict(A=A, B=B, expr=[op, "A", "B"]), time_budget=None if tier == "quick" else 2400))
     out.append(dict(module="checks.c13", scenario="CapWitness", params={}))
     out.append(dict(module="checks.c13", scenario="BigCross", params={}))
+    out.append(dict(module="checks.c13", scenario="BigCross", params=dict(which="frac")))
     for s in ["penta", "hollow", "two"] + (["inv:two", "ell", "framedot"] if tier != "quick" else []):
         for w in ("move", "scale"):
             out.append(dict(module="checks.c13", scenario="ExactTransform", params=dict(shape=s, what=w)))
